@@ -8,7 +8,7 @@ import readmodel as rm
 
 PROP = "C09"
 MODEL_TARGETS = ["Corr/ReadShow.vo"]
-THEOREMS = ["C09_blank_header", "C09_comment_header", "C09_skipped_header", "C09_blank_data", "C09_comment_data", "C09_sniff_skipped", "C09_sniff_blank", "C09_sniff_comment", "C09_skipped_data", "C09_strip_padding", "C09_strip_idempotent", "C09_strip_blank", "C09_padding_map", "C09_padding_header", "C09_padding_sections", "C09_padding_other", "C09_padding_data", "C09_padding_read", "C09_crlf_strip", "C09_crlf_lines", "C09_crlf_read", "C09_final_newline", "C09_final_newline_read", "C09_tokens_of_lines", "C09_rewrap_tokens", "C09_rewrap_data", "C09_rewrap_data_clean", "C09_rewrap_read", "C09_rewrap_clean_lines", "C09_rewrap_width", "C09_redelimit_space", "C09_redelimit_space_fields", "C09_redelimit_comma", "C09_blocks", "C09_skip_read", "C09_compose", "C09_compose_list", "C09_step_read", "C09_compose_read", "C09_inspect_current", "C09_engine_items_current", "C09_engine_array_current", "C09_rewrap_width_le", "C09_rewrap_le_weaken", "C09_rewrap_read_le", "C09_lines_alike_data", "C09_alike_of_equiv", "C09_alike_of_streq", "C09_respace_line", "C09_respace_data", "C09_redelimit_comma_unique", "C09_redelimit_read", "C09_respace_block_alike", "C09_header_padding", "C09_header_padding_section", "C09_header_padding_alike", "C09_step_read_ext", "C09_compose_read_ext", "C09_compose_read_ext_list"]
+THEOREMS = ["C09_blank_header", "C09_comment_header", "C09_skipped_header", "C09_blank_data", "C09_comment_data", "C09_sniff_skipped", "C09_sniff_blank", "C09_sniff_comment", "C09_skipped_data", "C09_strip_padding", "C09_strip_idempotent", "C09_strip_blank", "C09_padding_map", "C09_padding_header", "C09_padding_sections", "C09_padding_other", "C09_padding_data", "C09_padding_read", "C09_crlf_strip", "C09_crlf_lines", "C09_crlf_read", "C09_final_newline", "C09_final_newline_read", "C09_tokens_of_lines", "C09_rewrap_tokens", "C09_rewrap_data", "C09_rewrap_data_clean", "C09_rewrap_read", "C09_rewrap_clean_lines", "C09_rewrap_width", "C09_redelimit_space", "C09_redelimit_space_fields", "C09_redelimit_comma", "C09_blocks", "C09_skip_read", "C09_compose", "C09_compose_list", "C09_step_read", "C09_compose_read", "C09_inspect_current", "C09_engine_items_current", "C09_engine_array_current", "C09_parse_section_current", "C09_rewrap_width_le", "C09_rewrap_le_weaken", "C09_rewrap_read_le", "C09_lines_alike_data", "C09_alike_of_equiv", "C09_alike_of_streq", "C09_respace_line", "C09_respace_data", "C09_redelimit_comma_unique", "C09_redelimit_read", "C09_respace_block_alike", "C09_header_padding", "C09_header_padding_section", "C09_header_padding_alike", "C09_step_read_ext", "C09_compose_read_ext", "C09_compose_read_ext_list"]
 ASSUMPTIONS = [
     "transformations are applied to files inside the modelled fragment (LAS 1.2/2.0; default read options and engine='normal')",
     "~Other keeps blank lines (they are content), so blank/comment insertion is not claimed there",
